@@ -2,6 +2,9 @@ INIT Init
 NEXT Next
 CONSTANTS MaxLen = 3
   Sizes = {64, 80}
+  Pkts <- LinkPkts
+  Filters <- LinkFilters
+  CutAll = TRUE
   Cap = 2
   Defect = "drop-batch-on-pipe-skip-eof"
 INVARIANTS Refines TrackedIsTrue OffsetsTrue BatchesFull
